@@ -413,8 +413,8 @@ func (s *sys) gen(r *rand.Rand, cfg genCfg) []uint64 {
 			pk = 4 + uint64(r.IntN(2))
 		}
 		k := uint64(r.IntN(5))
-		if r.IntN(4) == 0 {
-			k = s.g.Load() // the predicate fires (true / error) on the current value
+		if pk >= 2 && pk <= 3 && r.IntN(3) == 0 {
+			k = s.g.Load() // the predicate returns its error on the current value
 		}
 		return []uint64{2, pk, k, b2u(r.IntN(12) == 0), b2u(r.IntN(4) == 0)}
 	}
@@ -443,7 +443,7 @@ func (s *sys) gen(r *rand.Rand, cfg genCfg) []uint64 {
 		if len(cgates) > 0 && r.IntN(3) == 0 {
 			return []uint64{3, uint64(cgates[r.IntN(len(cgates))])}
 		}
-		if len(ugates) > 0 && r.IntN(12) == 0 {
+		if len(ugates) > 0 && r.IntN(20) == 0 {
 			return []uint64{4, uint64(ugates[r.IntN(len(ugates))])}
 		}
 		switch {
